@@ -1,7 +1,7 @@
 (* C01 / C20 over the tables regenerated from the source: the decidable side conditions of ParserProofs hold of Gen/G_OperatorTable.v,
    Gen/G_Keywords.v by computation, so the generic theorems of ParserBodies apply to the parser as it is written today. *)
 From Coq Require Import ZArith NArith List Bool String Lia.
-From ChaiV Require Import NumDefs Ast LexDefs LexProofs LexLitProofs ParserLexProofs ParserDefs ParserProofs ParserBodies ParserTriviaProofs.
+From ChaiV Require Import NumDefs Ast LexDefs LexProofs LexLitProofs ParserLexProofs ParserDefs ParserProofs ParserBodies ParserTriviaProofs ParserErrPosProofs ParserFnameProofs.
 From ChaiV.Gen Require Import G_IntLadder G_Keywords G_OperatorTable.
 Import ListNotations.
 Local Open Scope string_scope.
@@ -52,15 +52,44 @@ Proof.
   destruct (N.eqb_spec c 9); [right; assumption|]. destruct (N.eqb_spec c 32); [left; assumption|]. discriminate.
 Qed.
 
-(* C01_accounts for inputs that do not begin with the two bytes `#!` *)
+(* C01_accounts, for EVERY input (with or without a `#!` line): a normal result is a File node with the cursor at the end of the input, or
+   the Noop node and then the whole buffer is trivia for the independent automaton ParserDefs.trivia_only *)
 Theorem parse_gen_accounts : forall bytes file n s',
-  no_shebang bytes -> parse_full A T K G bytes file = Ok (n, s') ->
+  parse_full A T K G bytes file = Ok (n, s') ->
   (pn_kind n = Ast.KFile /\ idx (pos s') = List.length bytes) \/ (n = noop_node /\ trivia_only bytes = true).
 Proof.
-  intros bytes file n s' Hns E. destruct (parse_gen_root bytes file n s' E) as (Hb & Hw & Hi & Hd & [Hk|Hk]).
+  intros bytes file n s' E. destruct (parse_gen_root bytes file n s' E) as (Hb & Hw & Hi & Hd & [Hk|Hk]).
   - left. auto.
   - right. split; [exact Hk|].
     unfold parse_full in E.
     change bytes with (buf (pos (mkState (pos_begin bytes) 0 (mkPS [] file 0%N)))).
-    apply (parse_internal_noop A T K G white_gen_ok id_sub_keyword_gen parse_fuel _ s' n); [apply wf_pos_begin|left; reflexivity|exact Hns|exact E|rewrite Hk; reflexivity].
+    apply (parse_internal_noop_all A T K G white_gen_ok id_sub_keyword_gen parse_fuel _ s' n); [apply wf_pos_begin|reflexivity|exact E|rewrite Hk; reflexivity].
 Qed.
+(* the old, restricted statement is a corollary *)
+Corollary parse_gen_accounts_no_shebang : forall bytes file n s',
+  no_shebang bytes -> parse_full A T K G bytes file = Ok (n, s') ->
+  (pn_kind n = Ast.KFile /\ idx (pos s') = List.length bytes) \/ (n = noop_node /\ trivia_only bytes = true).
+Proof. intros bytes file n s' _. apply parse_gen_accounts. Qed.
+
+(* C01_error_position: an eval_error of the parser carries no position at all (line = col = 0: the one-argument constructor, used by the
+   Char_Parser's escape-sequence errors) or the line of a cursor position inside the caller's buffer *)
+Theorem parse_gen_error_position : forall bytes file r l c,
+  parse A T K G bytes file = Err r l c ->
+  (l = 0 /\ c = 0)%Z \/
+  ((exists i, (i <= List.length bytes)%nat /\ l = (1 + count_nl (firstn i bytes))%Z) /\ (1 <= l <= count_nl bytes + 1)%Z).
+Proof. exact (parse_error_position A T K G). Qed.
+
+(* no leaked nodes: a successful parse ends with exactly the root on the match stack (and the caller's file name in place) *)
+Theorem parse_gen_stack : forall bytes file n s',
+  parse_full A T K G bytes file = Ok (n, s') -> stk (user s') = [n] /\ fname (user s') = file.
+Proof. exact (parse_stack A T K G id_sub_keyword_gen tables_gen_ok). Qed.
+
+(* C01_fname_independent: the file name handed to parse() influences nothing but the stored file-name fields and `__FILE__` constants *)
+Theorem parse_gen_fname_independent : forall bytes f1 f2, same_modulo_fname f1 f2 (parse A T K G bytes f1) (parse A T K G bytes f2).
+Proof. exact (parse_fname_independent A T K G). Qed.
+Theorem parse_gen_shape_fname_independent : forall bytes f1 f2 t1,
+  parse A T K G bytes f1 = Ok t1 -> exists t2, parse A T K G bytes f2 = Ok t2 /\ shape t2 = shape t1.
+Proof. exact (parse_shape_fname_independent A T K G). Qed.
+Theorem parse_gen_error_fname_independent : forall bytes f1 f2 r l c,
+  parse A T K G bytes f1 = Err r l c -> parse A T K G bytes f2 = Err r l c.
+Proof. exact (parse_error_fname_independent A T K G). Qed.
